@@ -29,3 +29,4 @@ def run(ctx):
     ctx.run("C05.CODE-READER", "R-ERRDISC", mem.code_reader)
     ctx.run("C05.DELETE-TOLERANT", "R-ERRDISC", mem.delete_tolerant)
     ctx.run("C05.INVALIDATE-ORDER", "R-ORDER", mem.invalidate_order)
+    ctx.run("C14.REWRITE", "R-ORDER", mem.dump_always_writes)
